@@ -2,6 +2,8 @@
 package main
 
 import (
+	"runtime/debug"
+	"runtime/pprof"
 	"crypto/sha1"
 	"encoding/json"
 	"flag"
@@ -39,6 +41,7 @@ func loadKnown() []knownFinding {
 }
 
 func main() {
+	debug.SetGCPercent(400)
 	if len(os.Args) < 2 {
 		fatal("usage: mowcheck check|run|replay|selftest ...")
 	}
@@ -91,12 +94,18 @@ func cmdRun(args []string) {
 	samples := fs.Int("samples", 0, "samples to validate natively")
 	mapOrder := fs.Int("maporder", 0, "map order mode")
 	verbose := fs.Bool("v", false, "verbose")
+	cpuprof := fs.String("cpuprofile", "", "write cpu profile")
 	var params multiFlag
 	fs.Var(&params, "param", "name=value (int if numeric)")
 	fs.Parse(args)
 	known := loadKnown()
 	t0 := time.Now()
 	p := loadProgram(known)
+	if *cpuprof != "" {
+		f, _ := os.Create(*cpuprof)
+		pprof.StartCPUProfile(f)
+		defer pprof.StopCPUProfile()
+	}
 	fmt.Printf("loaded in %.1fs\n", time.Since(t0).Seconds())
 	g := groups[*grp]
 	u := &interp.Unit{Name: *entry, Harness: g.Name, PkgPath: g.PkgPath, Entry: *entry, Params: parseParams(params), MaxPaths: *maxPaths, Samples: *samples, MapOrder: *mapOrder}
